@@ -15,6 +15,7 @@ CONSTANTS
  FreshContent = ""
  Want = {"ALL"}
  ArgLists <- MCArgLists
+ InitEvents <- MCInitEvents
  Cmds <- MCCmds
 CONSTRAINT MCLevel
 PROPERTY StepOK
